@@ -1,6 +1,7 @@
 SPECIFICATION Spec
 CONSTANTS
   Deep = TRUE
+  NRandU = 14
 INVARIANTS
   Inv_WF
   Inv_Algo
